@@ -2,11 +2,13 @@ pub mod c02;
 pub mod c10;
 pub mod c11;
 pub mod c12;
+pub mod c14;
 pub mod c21;
 pub mod c28;
 pub mod c29;
 pub mod c30;
 pub mod c35;
+pub mod c42;
 pub mod dirchecks;
 pub mod replchecks;
 
@@ -19,6 +21,8 @@ pub fn dispatch(id: &str, args: &[String]) -> ! {
         "C10" => c10::run(args),
         "C11" => c11::run(args),
         "C12" => c12::run(args),
+        "C14" => c14::run(args),
+        "C42" => c42::run(args),
         "C17" => dirchecks::run("C17", args),
         "C19" => replchecks::run("C19", args),
         "C21" => c21::run(args),
